@@ -5,5 +5,5 @@ mod corpus {
 }
 
 fn main() {
-    strum_sim::c05::main(corpus::CASES)
+    strum_sim::c05::main_core(corpus::CASES)
 }
